@@ -39,6 +39,8 @@ def proj_defect(a: np.ndarray, b: np.ndarray, nax: int) -> tuple[float, int]:
     if a.shape != b.shape:
         return math.inf, 0
     sh = a.shape[: a.ndim - nax]
+    if a.size == 0:
+        return 0.0, 0   # two empty collections of the same shape
     A = a.reshape(sh + (-1,)).astype(np.complex128)
     B = b.reshape(sh + (-1,)).astype(np.complex128)
     if not np.all(np.isfinite(A)) or not np.all(np.isfinite(B)):
@@ -215,7 +217,26 @@ class Gen:
         # transformations
         for _ in range(rng.randint(2, 4)):
             c = rng.random()
-            if c < 0.55 or d == 1:
+            if c < 0.12:
+                # structured matrices: permutations, signed diagonals, zero diagonal, unimodular shears
+                kind = rng.choice(["perm", "diag", "zerodiag", "shear"])
+                if kind == "perm":
+                    pm = list(range(n))
+                    rng.shuffle(pm)
+                    m = [[1 if pm[i] == j else 0 for j in range(n)] for i in range(n)]
+                elif kind == "diag":
+                    m = [[rng.choice([1, -1, 2, -2]) if i == j else 0 for j in range(n)] for i in range(n)]
+                elif kind == "zerodiag" and n >= 2:
+                    m = [[0 if i == j else 1 for j in range(n)] for i in range(n)]
+                    if abs(program._det(m)) < 1:
+                        m = self.inv_matrix(n)
+                else:
+                    m = [[1 if i == j else (rng.randint(-2, 2) if j > i else 0) for j in range(n)] for i in range(n)]
+                if not cond_ok(np.array(m, float)):
+                    m = self.inv_matrix(n)
+                s = self.add_recipe("transf", [m], {"dt": rng.choice(["f", "i"])})
+                self.T[s] = {"m": np.array(m, float), "fshape": ()}
+            elif c < 0.55 or d == 1:
                 m = self.inv_matrix(n)
                 s = self.add_recipe("transf", [m], {"dt": rng.choice(["f", "i"])})
                 self.T[s] = {"m": np.array(m, float), "fshape": ()}
@@ -300,6 +321,19 @@ class Gen:
             obj("plane", (kc,), "planecoll",
                 [[[rng.randint(-3, 3) or 1, rng.randint(-3, 3), rng.randint(-3, 3), rng.randint(-3, 3)] for _ in range(kc)]],
                 {"dt": "i"})
+        # special configurations: a segment with one end at infinity, the hyperplane at infinity, empty and
+        # one-element collections
+        inf_pt = obj("point", (), "point", [[1] + [rng.randint(-2, 2) for _ in range(d - 1)] + [0]], {"how": "hom", "dt": "i"})
+        obj("segment", (), "segment", [G[0], inf_pt])
+        obj("line" if d == 2 else "plane", (), "line" if d == 2 else "plane", [[0] * d + [1]], {"dt": "i"})
+        if rng.random() < 0.3:
+            obj("point", (0,), "emptycoll", [n])
+        if rng.random() < 0.3:
+            obj("point", (1,), "pointcoll", [[pt()]], {"dt": "i"})
+        # degenerate quadric (pair of hyperplanes)
+        g_, h_ = [rng.randint(-2, 2) or 1 for _ in range(n)], [rng.randint(-2, 2) for _ in range(n - 1)] + [1]
+        obj("quadric", (), "conic" if d == 2 else "quadric",
+            [[[g_[i] * h_[j] + g_[j] * h_[i] for j in range(n)] for i in range(n)]], {"dual": False})
         # quadrics
         m = pg.sym(n)
         for i in range(n):
